@@ -15,6 +15,7 @@ import (
 	"time"
 
 	otter "github.com/maypok86/otter/v2"
+	"github.com/maypok86/otter/v2/internal/hashmap"
 )
 
 func concResize(args []string, out *bufio.Writer) {
@@ -160,6 +161,18 @@ func concResize(args []string, out *bufio.Writer) {
 			fmt.Fprintf(out, "table round=%d grow=%v size=%d want=%d all=%d wrong=%d missing=%d\n", round, grow, c.EstimatedSize(), len(present), cnt, bad, missing)
 		}
 		c.StopAllGoroutines()
+		// the loser of a resize race: its resize starts from a table that has already been replaced (white box, one goroutine)
+		{
+			growths := 1 + r.intn(3)
+			extra := r.intn(300)
+			lateGrow := r.chance(0.7)
+			del := 0
+			if !lateGrow || r.chance(0.3) {
+				del = 2 + r.intn(20)
+			}
+			want, found, ranged, size := hashmap.VerifStaleResize(extra, growths, lateGrow, del)
+			fmt.Fprintf(out, "table round=%d grow=%v size=%d want=%d all=%d wrong=%d missing=%d\n", 1000+growths, lateGrow, size, want, ranged, 0, want-found)
+		}
 		runtime.GOMAXPROCS(prevProcs)
 	}
 }
